@@ -1042,4 +1042,553 @@ theorem parse_exec_structured_budget (B : List SStmt) (hB : ProgOK B) (hfid : Fi
 
 end T4
 
+/-! ## T3, converse direction: whatever the pure semantics computes, the ticked semantics computes too (given enough fuel) -/
+
+section Converse
+variable {cfg : Config W} {scfg : SConfig W} {start : FnId → Nat} (ag : Agree cfg scfg start)
+  (htb : TruthyBool cfg.host) (hhost : HostNoReserved cfg.host) (htab : TableOK scfg) (hmax : cfg.maxStatements = 0)
+  (base : Option String)
+
+/-- pure calls with fuel `k` are matched by machine calls with enough fuel -/
+def CallC (cfg : Config W) (scfg : SConfig W) (k : Nat) : Prop := CallSimG false 0 (callS scfg k) (callValue₀ cfg)
+
+def StmtC (cfg : Config W) (scfg : SConfig W) (base : Option String) (k : Nat) : Prop :=
+  ∀ (lk : LK) (s : SStmt) (i : Nat), okS lk s = true → ∀ (l : Option Env) (st : State W) (l' : Option Env) (st' : State W),
+    LRel l l' → StRel st st' →
+    CSim lk i l st.globals (fun f => execTS cfg (callValue₀ cfg) (execIncludes₀ cfg) lk.inLoop s i f l base st)
+      (execSS scfg k s l' st')
+
+def BlockC (cfg : Config W) (scfg : SConfig W) (base : Option String) (k : Nat) : Prop :=
+  ∀ (lk : LK) (B : List SStmt) (i : Nat), okB lk B = true → ∀ (l : Option Env) (st : State W) (l' : Option Env) (st' : State W),
+    LRel l l' → StRel st st' →
+    CSim lk i l st.globals (fun f => execTB cfg (callValue₀ cfg) (execIncludes₀ cfg) lk.inLoop B i f l base st)
+      (execSB scfg k B l' st')
+
+def ElseC (cfg : Config W) (scfg : SConfig W) (base : Option String) (k : Nat) : Prop :=
+  ∀ (lk : LK) (e : SElse) (i : Nat), okE lk e = true → ∀ (l : Option Env) (st : State W) (l' : Option Env) (st' : State W),
+    LRel l l' → StRel st st' →
+    CSim lk i l st.globals (fun f => execTE cfg (callValue₀ cfg) (execIncludes₀ cfg) lk.inLoop e i f l base st)
+      (execSE scfg k e l' st')
+
+/-- after the body of a `while` iteration (machine: the test at the bottom; pure: the `while` statement again) -/
+def WhileC (cfg : Config W) (scfg : SConfig W) (base : Option String) (k : Nat) : Prop :=
+  ∀ (lk : LK) (c : Expr) (b : List SStmt) (i : Nat), nrE c = true → okB .whileL b = true →
+    ∀ (l : Option Env) (st : State W) (l' : Option Env) (st' : State W), LRel l l' → StRel st st' →
+    CSim lk i l st.globals
+      (fun f => wTest1 cfg (callValue₀ cfg) c (fun f l s => execTB cfg (callValue₀ cfg) (execIncludes₀ cfg) true b (i+1) f l base s) f l st)
+      (execSS scfg k (.while c b) l' st')
+
+/-- the iterations of `for` -/
+def ForC (cfg : Config W) (scfg : SConfig W) (base : Option String) (k : Nat) : Prop :=
+  ∀ (lk : LK) (i : Nat) (v : Name) (ix : Option Name) (b : List SStmt) (a n c : Value),
+    isGen v = false → ngO ix = true → okB .forL b = true →
+    ∀ (l : Option Env) (st : State W) (l' : Option Env) (st' : State W) (l0 : Option Env) (g0 : Env),
+    LRel l l' → StRel st st' → ForInv i ix a n c l st.globals → KeepL i l0 l → GKeep l0 i g0 st.globals →
+    CSim lk i l0 g0
+      (fun f => loopF1 cfg (callValue₀ cfg) i v (ix.getD (vIndex i)) (usesContB b)
+        (fun f l s => execTB cfg (callValue₀ cfg) (execIncludes₀ cfg) true b (i+1) f l base s) f l st)
+      (forS scfg k v ix b a n c l' st')
+
+include ag htb hhost htab
+
+/-- machine-side frame fact, read off the forward simulation: evaluating a user expression keeps the generated globals -/
+theorem keepE (m : Nat) (l : Option Env) (e : Expr) (he : nrE e = true) (st : State W) (v : Value) (s : State W)
+    (h : evalExpr cfg (callValue₀ cfg m) l e st = .ok v s) : KeepAll st.globals s.globals := by
+  have := evalExpr_sim cfg (callSim_all ag htb hhost htab m) (LRel.refl l) e st st he (StRel.refl st)
+  rw [h] at this
+  obtain ⟨_, _, hk, _⟩ := this
+  exact hk rfl
+
+theorem keepCallLooked (m : Nat) (n : Name) (r : Option Value) (vs : List Value) (st : State W) (v : Value) (s : State W)
+    (h : callLooked (callValue₀ cfg m) n r vs st = .ok v s) : KeepAll st.globals s.globals := by
+  have := callLooked_sim (callSim_all ag htb hhost htab m) n r vs (StRel.refl st)
+  rw [h] at this
+  obtain ⟨_, _, hk, _⟩ := this
+  exact hk rfl
+
+omit htb hhost htab in
+/-- a user expression, converse: the pure evaluation against the machine evaluations -/
+theorem user_exprC {k : Nat} (hC : CallC cfg scfg k) {l l' : Option Env} (hl : LRel l l') (e : Expr) (he : nrE e = true)
+    {st st' : State W} (hs : StRel st st') :
+    OSimG false 0 st'.globals (evalExpr cfg (callS scfg k) l' e st') (fun m => evalExpr cfg (callValue₀ cfg m) l e st) :=
+  evalExpr_sim cfg hC hl.symm e st' st he hs.symm
+
+omit ag htb hhost htab in
+theorem tk_rel {st st' : State W} (hs : StRel st st') : StRel (tk st) st' := hs
+
+include hmax
+
+/-- a branch block followed by `label done` / `jump done`, converse -/
+theorem csim_thenSkip {lk : LK} {i : Nat} {l0 : Option Env} {g0 : Env} {T : Nat → TOut W} {o' : SOut W}
+    (h : CSim lk i l0 g0 T o') :
+    CSim lk i l0 g0 (fun f => andThen (T f) fun l s f => stmtSkip cfg f l s) o' := by
+  have : o' = seqK (fun l s => SOut.norm l s) o' := by cases o' <;> rfl
+  rw [this]
+  refine csim_andThen cfg hmax h ?_
+  intro l s l' s' hp
+  have := csim_skip cfg hmax (lk := lk) (i := i) (l0 := l0) (g0 := g0) (l := l) (st := s)
+    (g := fun l s f => .norm l s f) (o' := .norm l' s') (csim_norm ⟨hp.1, hp.2.1, hp.2.2.1, hp.2.2.2⟩)
+  exact this.congr fun f => (andThen_id _).symm
+
+theorem blockC_succ {k : Nat} (hS : StmtC cfg scfg base k) (hB : BlockC cfg scfg base k) : BlockC cfg scfg base (k+1) := by
+  intro lk B i hok l st l' st' hl hs
+  cases B with
+  | nil =>
+    rw [execSB]
+    exact (csim_norm ⟨hl, hs, KeepL.refl i l, GKeep.refl l i _⟩).congr fun f => by rw [execTB]
+  | cons s ss =>
+    simp only [okB, Bool.and_eq_true] at hok
+    rw [execSB_cons]
+    refine (csim_andThen cfg hmax (hS lk s i hok.1 l st l' st' hl hs) ?_).congr fun f => execTB_cons ..
+    intro l1 s1 l1' s1' hp
+    exact CSim.weaken hp.2.2.1 hp.2.2.2 (cntS_le s i) (hB lk ss (cntS s i) hok.2 l1 s1 l1' s1' hp.1 hp.2.1)
+
+/-- one branch of an `if` chain, converse -/
+theorem chainC {k : Nat} (hC : CallC cfg scfg k) (hB : BlockC cfg scfg base k) (hE : ElseC cfg scfg base k)
+    (lk : LK) (c : Expr) (t : List SStmt) (e : SElse) (i : Nat) (hc : nrE c = true) (ht : okB lk t = true) (he : okE lk e = true)
+    {l l' : Option Env} {st st' : State W} (hl : LRel l l') (hs : StRel st st') :
+    CSim lk i l st.globals
+      (fun f => stmtCond cfg (callValue₀ cfg) (notE c) f l st fun taken f st1 =>
+        if taken then execTE cfg (callValue₀ cfg) (execIncludes₀ cfg) lk.inLoop e (cntB t (i+1)) f l base st1
+        else thenT cfg (callValue₀ cfg) (execIncludes₀ cfg) lk.inLoop t (i+1) f l base st1)
+      (condK cfg.host (fun s => execSB scfg k t l' s) (fun s => execSE scfg k e l' s)
+        (evalExpr cfg (callS scfg k) l' c st')) := by
+  simp only [stmtCond_notE cfg htb]
+  refine csim_stmtCond cfg hmax (callValue₀ cfg)
+    (Φ := condK cfg.host (fun s => execSB scfg k t l' s) (fun s => execSE scfg k e l' s))
+    (user_exprC ag hC hl c hc (tk_rel hs)) (fun m v s2 h => keepE ag htb hhost htab m l c hc (tk st) v s2 h)
+    (fun _ _ => rfl) rfl ?_
+  intro v s2 s2' hs2 hk
+  have hct := cntB_le t (i+1)
+  simp only [condK, ← hs2.1]
+  cases cfg.host.truthy v s2.world with
+  | true =>
+    simp only [Bool.not_true, Bool.false_eq_true, if_false, if_true]
+    exact CSim.weaken (KeepL.refl i l) (GKeep.of_all l i hk) (by omega)
+      (csim_thenSkip ag htb hhost htab hmax (hB lk t (i+1) ht l s2 l' s2' hl hs2))
+  | false =>
+    simp only [Bool.not_false, Bool.false_eq_true, if_false, if_true]
+    exact CSim.weaken (KeepL.refl i l) (GKeep.of_all l i hk) (by omega) (hE lk e (cntB t (i+1)) he l s2 l' s2' hl hs2)
+
+theorem elseC_succ {k : Nat} (hC : CallC cfg scfg k) (hB : BlockC cfg scfg base k) (hE : ElseC cfg scfg base k) :
+    ElseC cfg scfg base (k+1) := by
+  intro lk e i hok l st l' st' hl hs
+  cases e with
+  | none =>
+    rw [execSE]
+    exact (csim_norm ⟨hl, hs, KeepL.refl i l, GKeep.refl l i _⟩).congr fun f => by rw [execTE]
+  | els b =>
+    simp only [okE] at hok
+    rw [execSE]
+    exact (csim_thenSkip ag htb hhost htab hmax (hB lk b i hok l st l' st' hl hs)).congr fun f => execTE_els ..
+  | elif c t e =>
+    simp only [okE, Bool.and_eq_true] at hok
+    rw [execSE_elif ag]
+    exact (chainC ag htb hhost htab hmax base hC hB hE lk c t e i hok.1.1 hok.1.2 hok.2 hl hs).congr fun f => execTE_elif ..
+
+/-- the iterations of `while`, entered just before the body, converse -/
+theorem loopW1C {k : Nat} (hB : BlockC cfg scfg base k) (hW : WhileC cfg scfg base k)
+    (lk : LK) (c : Expr) (b : List SStmt) (i : Nat) (hc : nrE c = true) (hok : okB .whileL b = true)
+    {l l' : Option Env} {st st' : State W} (hl : LRel l l') (hs : StRel st st') :
+    CSim lk i l st.globals
+      (fun f => loopW1 cfg (callValue₀ cfg) c
+        (fun f l s => execTB cfg (callValue₀ cfg) (execIncludes₀ cfg) true b (i+1) f l base s) f l st)
+      (loopK (fun l1 s1 => execSS scfg k (.while c b) l1 s1) (execSB scfg k b l' st')) := by
+  have hb : ∀ f l st, FuelOK f (execTB cfg (callValue₀ cfg) (execIncludes₀ cfg) true b (i+1) f l base st) :=
+    fun f l st => execTB_ok cfg _ _ true b (i+1) f l base st
+  have h0 := hB .whileL b (i+1) hok l st l' st' hl hs
+  simp only [LK.inLoop] at h0
+  refine (csim_then (Ψ := wAfter1 cfg (callValue₀ cfg) c
+      (fun f l s => execTB cfg (callValue₀ cfg) (execIncludes₀ cfg) true b (i+1) f l base s))
+    (Γ := loopK (fun l1 s1 => execSS scfg k (.while c b) l1 s1)) h0 rfl ?_).congr
+    (fun f => loopW1_eq cfg (callValue₀ cfg) c _ hb f l st)
+  intro o o' hr
+  cases o <;> cases o' <;> simp only [ORel] at hr
+  · rename_i l1 s1 l1' s1'
+    exact CSim.weaken (hr.2.2.1.mono (Nat.le_succ i)) (hr.2.2.2.mono (Nat.le_succ i)) (Nat.le_refl i)
+      (hW lk c b i hc hok l1 s1 l1' s1' hr.1 hr.2.1)
+  · exact csim_norm ⟨hr.2.1, hr.2.2.1, hr.2.2.2.1.mono (Nat.le_succ i), hr.2.2.2.2.mono (Nat.le_succ i)⟩
+  · exact absurd hr.1 (by decide)
+  · obtain ⟨rfl, h1, h2⟩ := hr
+    exact csim_ret h1 (h2.mono (Nat.le_succ i))
+  · obtain ⟨rfl, h1⟩ := hr
+    exact csim_err h1
+
+theorem whileC_succ {k : Nat} (hC : CallC cfg scfg k) (hB : BlockC cfg scfg base k) (hW : WhileC cfg scfg base k) :
+    WhileC cfg scfg base (k+1) := by
+  intro lk c b i hc hok l st l' st' hl hs
+  rw [execSS_while ag]
+  unfold wTest1
+  refine csim_stmtCond cfg hmax (callValue₀ cfg)
+    (Φ := condK cfg.host (fun s => loopK (fun l2 s2 => execSS scfg k (.while c b) l2 s2) (execSB scfg k b l' s))
+      (fun s => .norm l' s))
+    (user_exprC ag hC hl c hc (tk_rel hs)) (fun m v s2 h => keepE ag htb hhost htab m l c hc (tk st) v s2 h)
+    (fun _ _ => rfl) rfl ?_
+  intro v s2 s2' hs2 hk
+  simp only [condK, ← hs2.1]
+  cases cfg.host.truthy v s2.world with
+  | true =>
+    simp only [if_true]
+    exact CSim.weaken (KeepL.refl i l) (GKeep.of_all l i hk) (Nat.le_refl i)
+      (loopW1C ag htb hhost htab hmax base hB hW lk c b i hc hok hl hs2)
+  | false =>
+    simp only [Bool.false_eq_true, if_false]
+    refine (csim_skip cfg hmax (g := fun l s f => .norm l s f)
+      (csim_norm ⟨hl, tk_rel hs2, KeepL.refl i l, GKeep.of_all l i hk⟩)).congr fun f => (andThen_id _).symm
+
+omit ag htb hhost htab hmax in
+@[simp] theorem tk_globals (st : State W) : (tk st).globals = st.globals := rfl
+omit ag htb hhost htab hmax in
+@[simp] theorem tk_world (st : State W) : (tk st).world = st.world := rfl
+
+/-- the footer of a `for` iteration, converse -/
+theorem forAfter1C {k : Nat} (hF : ForC cfg scfg base k)
+    (lk : LK) (i : Nat) (v : Name) (ix : Option Name) (b : List SStmt) (a n : Value)
+    (hv : isGen v = false) (hix : ngO ix = true) (hokb : okB .forL b = true) :
+    ∀ (c : Value) (l l' : Option Env) (st st' : State W) (l0 : Option Env) (g0 : Env),
+      LRel l l' → StRel st st' → ForInv i ix a n c l st.globals → KeepL i l0 l → GKeep l0 i g0 st.globals →
+      CSim lk i l0 g0
+        (fun f => forAfter1 cfg (callValue₀ cfg) i v (ix.getD (vIndex i)) (usesContB b)
+          (fun f l s => execTB cfg (callValue₀ cfg) (execIncludes₀ cfg) true b (i+1) f l base s) l st f)
+        (footerS cfg.host scfg k v ix b a n c l' st') := by
+  intro c l l' st st' l0 g0 hl hs hinv hkl hkg
+  unfold forAfter1
+  cases ix with
+  | none =>
+    simp only [Option.getD_none, vIndex, vLength, vValues, ForInv] at hinv ⊢
+    obtain ⟨hvv, hn, hc⟩ := hinv
+    have hc := hc trivial
+    refine csim_stmtExpr_pure cfg hmax (callValue₀ cfg) (cfg.host.binop .add c (.num 1) st.world) ?_ ?_
+    · intro m
+      rw [evalExpr_incr, tk_globals, readVar_of_sget hc]; rfl
+    · simp only [assignO]
+      have hp := assign_gen hl (tk_rel hs) .index i (cfg.host.binop .add c (.num 1) st.world) i (Nat.le_refl i)
+      have hself := sget_assign_self l (tk st) (.gen .index i) (cfg.host.binop .add c (.num 1) st.world)
+      have hne := fun y hy => sget_assign_ne l (tk st) (.gen .index i) y (cfg.host.binop .add c (.num 1) st.world) hy
+      have hw3 := assign_world l (tk st) (.gen .index i) (cfg.host.binop .add c (.num 1) st.world)
+      generalize hA : assign l (tk st) (.gen .index i) (cfg.host.binop .add c (.num 1) st.world) = A at hp hself hne hw3 ⊢
+      obtain ⟨l3, s3⟩ := A
+      simp only [tk_globals, tk_world] at hp hself hne hw3 ⊢
+      have hkl3 : KeepL i l0 l3 := hkl.trans hp.2.2.1 (Nat.le_refl i)
+      have hkg3 : GKeep l0 i g0 s3.globals := hkg.trans hp.2.2.2 hkl.isSome (Nat.le_refl i)
+      refine csim_stmtCond_pure cfg hmax (callValue₀ cfg)
+        (cfg.host.binop .lt (cfg.host.binop .add c (.num 1) st.world) n s3.world) ?_ ?_
+      · intro m
+        rw [evalExpr_ltvars, tk_globals, readVar_of_sget hself, readVar_of_sget ((hne _ (by simp)).trans hn)]; rfl
+      · simp only [footerS, tk_world, hw3, ← hs.1]
+        cases cfg.host.truthy (cfg.host.binop .lt (cfg.host.binop .add c (.num 1) st.world) n st.world) st.world with
+        | true =>
+          simp only [if_true]
+          refine hF lk i v none b a n _ hv hix hokb l3 (tk s3) l' st' l0 g0 hp.1 (tk_rel hp.2.1) ?_ hkl3 hkg3
+          simp only [ForInv, vIndex, vLength, vValues, tk_globals]
+          exact ⟨(hne _ (by simp)).trans hvv, (hne _ (by simp)).trans hn, fun _ => hself⟩
+        | false =>
+          simp only [Bool.false_eq_true, if_false]
+          exact (csim_skip cfg hmax (g := fun l s f => .norm l s f)
+            (csim_norm ⟨hp.1, tk_rel (tk_rel hp.2.1), hkl3, hkg3⟩)).congr fun f => (andThen_id _).symm
+  | some xn =>
+    simp only [Option.getD_some, vIndex, vLength, vValues, ForInv] at hinv ⊢
+    simp only [ngO, Bool.not_eq_true'] at hix
+    obtain ⟨hvv, hn, _⟩ := hinv
+    have hgen : ∀ K k, Name.gen K k ≠ xn := by intro K k h; subst h; simp [isGen] at hix
+    have hrv : readVar l st.globals xn = readVar l' st'.globals xn := readVar_rel hl hs.2 xn hix
+    refine csim_stmtExpr_pure cfg hmax (callValue₀ cfg)
+      (cfg.host.binop .add (readVar l' st'.globals xn) (.num 1) st'.world) ?_ ?_
+    · intro m
+      rw [evalExpr_incr, tk_globals, tk_world, hrv, hs.1]
+    · simp only [assignO]
+      have hp := assign_user hl (tk_rel hs) xn (cfg.host.binop .add (readVar l' st'.globals xn) (.num 1) st'.world) hix i
+      have hne := fun y hy => sget_assign_ne l (tk st) xn y (cfg.host.binop .add (readVar l' st'.globals xn) (.num 1) st'.world) hy
+      generalize hA : assign l (tk st) xn (cfg.host.binop .add (readVar l' st'.globals xn) (.num 1) st'.world) = A at hp hne ⊢
+      obtain ⟨l3, s3⟩ := A
+      simp only [footerS]
+      generalize hA' : assign l' st' xn (cfg.host.binop .add (readVar l' st'.globals xn) (.num 1) st'.world) = A' at hp ⊢
+      obtain ⟨l3', s3'⟩ := A'
+      simp only [tk_globals, tk_world] at hp hne ⊢
+      have hkl3 : KeepL i l0 l3 := hkl.trans hp.2.2.1 (Nat.le_refl i)
+      have hkg3 : GKeep l0 i g0 s3.globals := hkg.trans hp.2.2.2 hkl.isSome (Nat.le_refl i)
+      refine csim_stmtCond_pure cfg hmax (callValue₀ cfg)
+        (cfg.host.binop .lt (readVar l3' s3'.globals xn) n s3'.world) ?_ ?_
+      · intro m
+        rw [evalExpr_ltvars, tk_globals, tk_world, readVar_of_sget ((hne _ (hgen _ _)).trans hn),
+          readVar_rel hp.1 hp.2.1.2 xn hix, hp.2.1.1]
+      · simp only [tk_world, hp.2.1.1]
+        cases cfg.host.truthy (cfg.host.binop .lt (readVar l3' s3'.globals xn) n s3'.world) s3'.world with
+        | true =>
+          simp only [if_true]
+          refine hF lk i v (some xn) b a n c hv (by simp [ngO, hix]) hokb l3 (tk s3) l3' s3' l0 g0 hp.1 (tk_rel hp.2.1) ?_ hkl3 hkg3
+          simp only [ForInv, vIndex, vLength, vValues, tk_globals]
+          exact ⟨(hne _ (hgen _ _)).trans hvv, (hne _ (hgen _ _)).trans hn, fun h => by cases h⟩
+        | false =>
+          simp only [Bool.false_eq_true, if_false]
+          exact (csim_skip cfg hmax (g := fun l s f => .norm l s f)
+            (csim_norm ⟨hp.1, tk_rel (tk_rel hp.2.1), hkl3, hkg3⟩)).congr fun f => (andThen_id _).symm
+
+theorem forC_succ {k : Nat} (hC : CallC cfg scfg k) (hB : BlockC cfg scfg base k) (hF : ForC cfg scfg base k) :
+    ForC cfg scfg base (k+1) := by
+  intro lk i v ix b a n c hv hix hokb l st l' st' l0 g0 hl hs hinv hkl hkg
+  have hb : ∀ f l st, FuelOK f (execTB cfg (callValue₀ cfg) (execIncludes₀ cfg) true b (i+1) f l base st) :=
+    fun f l st => execTB_ok cfg _ _ true b (i+1) f l base st
+  have hfa := forAfter1C ag htb hhost htab hmax base hF lk i v ix b a n hv hix hokb
+  generalize usesContB b = hcb at hfa ⊢
+  rw [forS_succ ag]
+  have h1 : readVar l st.globals (vValues i) = a := readVar_of_sget hinv.1
+  have h2 : readVar l st.globals (ix.getD (vIndex i)) = idxS ix c l' st'.globals := by
+    cases ix with
+    | none => exact readVar_of_sget (hinv.2.2 rfl)
+    | some xn =>
+      simp only [ngO, Bool.not_eq_true'] at hix
+      exact readVar_rel hl hs.2 xn hix
+  have hev : ∀ m, evalExpr cfg (callValue₀ cfg m) l
+      (.function fnArrayGet [.variable (vValues i), .variable (ix.getD (vIndex i))]) (tk st) =
+      callLooked (callValue₀ cfg m) fnArrayGet (lookupFunc cfg l' st'.globals fnArrayGet) [a, idxS ix c l' st'.globals] (tk st) := by
+    intro m
+    rw [evalExpr_call2 _ _ _ _ _ _ _ fnArrayGet_ne, tk_globals, lookupFunc_rel cfg hl hs.2 fnArrayGet rfl, h1, h2]
+  refine (csim_stmtExpr cfg hmax (callValue₀ cfg) (n := some v) (gx := st'.globals)
+    (Φ := forIterK cfg.host scfg k v ix b a n c l') ?_ ?_ (fun _ _ => rfl) rfl ?_).congr
+    (fun f => loopF1_eq cfg (callValue₀ cfg) i v _ _ _ hb f l st)
+  · simp only [hev]
+    exact callLooked_sim hC fnArrayGet _ _ (tk_rel hs).symm
+  · intro m x s2 h
+    rw [hev] at h
+    exact keepCallLooked ag htb hhost htab m _ _ _ (tk st) x s2 h
+  · intro x s2 s2' hs2 hk
+    simp only [assignO, forIterK]
+    have hp := assign_user hl hs2 v x hv (i+1)
+    have hinv2 : ForInv i ix a n c l s2.globals :=
+      hinv.keep (KeepL.refl (i+1) l) (GKeep.of_all l (i+1) hk) (Nat.lt_succ_self i)
+    generalize hA : assign l s2 v x = A at hp ⊢
+    obtain ⟨lA, sA⟩ := A
+    generalize hA' : assign l' s2' v x = A' at hp ⊢
+    obtain ⟨lA', sA'⟩ := A'
+    simp only at hp ⊢
+    have hinvA : ForInv i ix a n c lA sA.globals := hinv2.keep hp.2.2.1 hp.2.2.2 (Nat.lt_succ_self i)
+    have hklA : KeepL i l0 lA := hkl.trans (hp.2.2.1.mono (Nat.le_succ i)) (Nat.le_refl i)
+    have hkgA : GKeep l0 i g0 sA.globals :=
+      (hkg.trans (GKeep.of_all l i hk) hkl.isSome (Nat.le_refl i)).trans (hp.2.2.2.mono (Nat.le_succ i)) hkl.isSome
+        (Nat.le_refl i)
+    have h0 := hB .forL b (i+1) hokb lA sA lA' sA' hp.1 hp.2.1
+    simp only [LK.inLoop] at h0
+    refine csim_then (Ψ := fAfter1 cfg (callValue₀ cfg) i v (ix.getD (vIndex i)) hcb
+        (fun f l s => execTB cfg (callValue₀ cfg) (execIncludes₀ cfg) true b (i+1) f l base s))
+      (Γ := loopK (footerS cfg.host scfg k v ix b a n c)) h0 rfl ?_
+    intro o o' hr
+    cases o <;> cases o' <;> simp only [ORel] at hr
+    · rename_i l1 s1 l1' s1'
+      have hp1' := hr.weaken hklA hkgA (Nat.le_succ i)
+      have hinv1 : ForInv i ix a n c l1 s1.globals := hinvA.keep hr.2.2.1 hr.2.2.2 (Nat.lt_succ_self i)
+      simp only [fAfter1, SOut.withFuel, loopK]
+      cases hcb with
+      | true =>
+        simp only [if_true]
+        exact csim_skip cfg hmax (hfa c l1 l1' (tk s1) s1' l0 g0 hr.1 (tk_rel hr.2.1) hinv1 hp1'.2.2.1 hp1'.2.2.2)
+      | false =>
+        simp only [Bool.false_eq_true, if_false]
+        exact hfa c l1 l1' s1 s1' l0 g0 hr.1 hr.2.1 hinv1 hp1'.2.2.1 hp1'.2.2.2
+    · rename_i l1 s1 l1' s1'
+      have hp1' := hr.2.weaken hklA hkgA (Nat.le_succ i)
+      exact csim_norm hp1'
+    · rename_i l1 s1 l1' s1'
+      have hp1' := hr.2.weaken hklA hkgA (Nat.le_succ i)
+      have hinv1 : ForInv i ix a n c l1 s1.globals := hinvA.keep hr.2.2.2.1 hr.2.2.2.2 (Nat.lt_succ_self i)
+      exact hfa c l1 l1' s1 s1' l0 g0 hr.2.1 hr.2.2.1 hinv1 hp1'.2.2.1 hp1'.2.2.2
+    · obtain ⟨rfl, h1', h2'⟩ := hr
+      exact csim_ret h1' (hkgA.trans (h2'.mono (Nat.le_succ i)) hklA.isSome (Nat.le_refl i))
+    · obtain ⟨rfl, h1'⟩ := hr
+      exact csim_err h1'
+
+theorem stmtC_succ {k : Nat} (hC : CallC cfg scfg k) (hB : BlockC cfg scfg base k) (hE : ElseC cfg scfg base k)
+    (hW : WhileC cfg scfg base k) (hF : ForC cfg scfg base k) : StmtC cfg scfg base (k+1) := by
+  intro lk s i hok l st l' st' hl hs
+  cases s with
+  | expr n e =>
+    simp only [okS, Bool.and_eq_true] at hok
+    rw [execSS_expr ag]
+    refine (csim_stmtExpr cfg hmax (callValue₀ cfg) (n := n) (g := fun l s f => .norm l s f) (Φ := exprK n l')
+      (user_exprC ag hC hl e hok.2 (tk_rel hs)) (fun m v s2 h => keepE ag htb hhost htab m l e hok.2 (tk st) v s2 h)
+      (fun _ _ => rfl) rfl ?_).congr (fun f => by rw [execTS, andThen_id])
+    intro v s2 s2' hs2 hk
+    cases n with
+    | none => exact csim_norm ⟨hl, hs2, KeepL.refl i l, GKeep.of_all l i hk⟩
+    | some x =>
+      simp only [ngO, Bool.not_eq_true'] at hok
+      exact csim_norm ((assign_user hl hs2 x v hok.1 i).weaken (KeepL.refl i l) (GKeep.of_all l i hk) (Nat.le_refl i))
+  | ret e =>
+    cases e with
+    | none =>
+      rw [execSS]
+      exact (csim_tick cfg hmax (K := fun _ st1 => .ret .null st1)
+        (csim_ret (tk_rel hs) (GKeep.refl l i _))).congr (fun f => by rw [execTS])
+    | some e =>
+      simp only [okS, nrEO] at hok
+      rw [execSS_ret ag]
+      have hX := user_exprC ag hC hl e hok (tk_rel hs)
+      have hT : ∀ f, execTS cfg (callValue₀ cfg) (execIncludes₀ cfg) lk.inLoop (.ret (some e)) i (f+1) l base st =
+          match evalExpr cfg (callValue₀ cfg f) l e (tk st) with
+          | .ok v s2 => .ret v s2
+          | .err er s => .err er s
+          | .oof => .oof := by
+        intro f; rw [execTS, tick_unlimited cfg hmax]
+      cases hS : evalExpr cfg (callS scfg k) l' e st' with
+      | oof => exact Or.inl rfl
+      | err er sS =>
+        rw [hS] at hX
+        rcases hX with ⟨m, _, h0⟩ | ⟨sT, hs1, N, hN⟩
+        · omega
+        · refine Or.inr ⟨.err er sT, 0, ⟨rfl, hs1.symm⟩, N+1, by omega, fun f hf => ?_⟩
+          obtain ⟨f', rfl⟩ : ∃ f', f = f'+1 := ⟨f-1, by omega⟩
+          have := hN f' (by omega)
+          simp only at this
+          simp only [hT, this]; rfl
+      | ok v sS =>
+        rw [hS] at hX
+        obtain ⟨sT, hs1, _, N, hN⟩ := hX
+        have hk := keepE ag htb hhost htab N l e hok (tk st) v sT (hN N (Nat.le_refl N))
+        refine Or.inr ⟨.ret v sT, 0, ⟨rfl, hs1.symm, GKeep.of_all l i hk⟩, N+1, by omega, fun f hf => ?_⟩
+        obtain ⟨f', rfl⟩ : ∃ f', f = f'+1 := ⟨f-1, by omega⟩
+        have := hN f' (by omega)
+        simp only at this
+        simp only [hT, this]; rfl
+  | label _ => simp [okS] at hok
+  | jump _ _ => simp [okS] at hok
+  | include _ => simp [okS] at hok
+  | brk =>
+    simp only [okS] at hok
+    rw [execSS]
+    have hne : lk ≠ .none := by intro h; subst h; simp [LK.inLoop] at hok
+    refine (csim_tick cfg hmax (K := fun f st1 => .brk l st1 f) (Or.inr ⟨.brk l (tk st), 0,
+      ⟨hne, hl, tk_rel hs, KeepL.refl i l, GKeep.refl l i _⟩, 0, Nat.le_refl 0, fun _ _ => rfl⟩)).congr
+      (fun f => by rw [execTS]; simp only [hok, if_true])
+  | cont =>
+    simp only [okS, decide_eq_true_eq] at hok
+    subst hok
+    rw [execSS]
+    refine (csim_tick cfg hmax (K := fun f st1 => .cont l st1 f) (Or.inr ⟨.cont l (tk st), 0,
+      ⟨rfl, hl, tk_rel hs, KeepL.refl i l, GKeep.refl l i _⟩, 0, Nat.le_refl 0, fun _ _ => rfl⟩)).congr
+      (fun f => by rw [execTS]; simp only [LK.inLoop, if_true])
+  | func fid n args laa isAsync b =>
+    simp only [okS, Bool.not_eq_true'] at hok
+    rw [execSS]
+    refine (csim_tick cfg hmax (K := fun f st1 => .norm l { st1 with globals := st1.globals.set n (.fn (.script fid)) } f)
+      (csim_norm ⟨hl, ⟨hs.1, vis_set_congr hs.2 n _ hok⟩, KeepL.refl i l, ?_⟩)).congr (fun f => by rw [execTS])
+    exact GKeep.of_all l i (keepAll_set_user _ n _ hok)
+  | ite c t e =>
+    simp only [okS, Bool.and_eq_true] at hok
+    rw [execSS_ite ag]
+    exact (chainC ag htb hhost htab hmax base hC hB hE lk c t e i hok.1.1 hok.1.2 hok.2 hl hs).congr fun f => execTS_ite ..
+  | «while» c b =>
+    simp only [okS, Bool.and_eq_true] at hok
+    rw [execSS_while ag]
+    have hT : ∀ f, execTS cfg (callValue₀ cfg) (execIncludes₀ cfg) lk.inLoop (.while c b) i f l base st =
+        stmtCond cfg (callValue₀ cfg) c f l st fun b' f st1 =>
+          if !b' then .norm l st1 f
+          else andThen (stmtSkip cfg f l st1) fun l2 st2 f2 =>
+            loopW1 cfg (callValue₀ cfg) c (fun f l s => execTB cfg (callValue₀ cfg) (execIncludes₀ cfg) true b (i+1) f l base s)
+              f2 l2 st2 := by
+      intro f; rw [execTS_while, stmtCond_notE cfg htb]; rfl
+    refine (csim_stmtCond cfg hmax (callValue₀ cfg)
+      (Φ := condK cfg.host (fun s => loopK (fun l2 s2 => execSS scfg k (.while c b) l2 s2) (execSB scfg k b l' s))
+        (fun s => .norm l' s))
+      (user_exprC ag hC hl c hok.1 (tk_rel hs)) (fun m v s2 h => keepE ag htb hhost htab m l c hok.1 (tk st) v s2 h)
+      (fun _ _ => rfl) rfl ?_).congr hT
+    intro v s2 s2' hs2 hk
+    simp only [condK, ← hs2.1]
+    cases cfg.host.truthy v s2.world with
+    | false =>
+      simp only [Bool.not_false, if_true, Bool.false_eq_true, if_false]
+      exact csim_norm ⟨hl, hs2, KeepL.refl i l, GKeep.of_all l i hk⟩
+    | true =>
+      simp only [Bool.not_true, Bool.false_eq_true, if_false, if_true]
+      refine csim_skip cfg hmax ?_
+      exact CSim.weaken (KeepL.refl i l) (GKeep.of_all l i hk) (Nat.le_refl i)
+        (loopW1C ag htb hhost htab hmax base hB hW lk c b i hok.1 hok.2 hl (tk_rel hs2))
+  | «for» v ix vals b =>
+    simp only [okS, Bool.and_eq_true, Bool.not_eq_true'] at hok
+    obtain ⟨⟨⟨hv, hix⟩, hvals⟩, hokb⟩ := hok
+    rw [execSS_for ag]
+    refine (csim_stmtExpr cfg hmax (callValue₀ cfg) (n := some (vValues i)) (Φ := forValsK cfg scfg k v ix b l')
+      (user_exprC ag hC hl vals hvals (tk_rel hs)) (fun m v s2 h => keepE ag htb hhost htab m l vals hvals (tk st) v s2 h)
+      (fun _ _ => rfl) rfl ?_).congr (fun f => execTS_for ..)
+    intro a s2 s2' hs2 hk
+    simp only [assignO, forValsK]
+    have hp1 := assign_gen hl hs2 .values i a i (Nat.le_refl i)
+    have hself1 := sget_assign_self l s2 (.gen .values i) a
+    generalize hA1 : assign l s2 (.gen .values i) a = A1 at hp1 hself1
+    obtain ⟨l1, s1⟩ := A1
+    simp only [vValues, vLength, vIndex, hA1] at hp1 hself1 ⊢
+    have k1g : GKeep l i st.globals s1.globals := (kall (GKeep.refl l i st.globals) hk).trans hp1.2.2.2 rfl (Nat.le_refl i)
+    have k1l : KeepL i l l1 := hp1.2.2.1
+    have hev : ∀ m, evalExpr cfg (callValue₀ cfg m) l1 (.function fnArrayLength [.variable (.gen .values i)]) (tk s1) =
+        callLooked (callValue₀ cfg m) fnArrayLength (lookupFunc cfg l' s2'.globals fnArrayLength) [a] (tk s1) := by
+      intro m
+      rw [evalExpr_call1 _ _ _ _ _ _ fnArrayLength_ne, tk_globals, lookupFunc_rel cfg hp1.1 hp1.2.1.2 fnArrayLength rfl,
+        readVar_of_sget hself1]
+    refine csim_stmtExpr cfg hmax (callValue₀ cfg) (n := some (.gen .length i)) (gx := s2'.globals)
+      (Φ := forLenK cfg.host scfg k v ix b a l') ?_ ?_ (fun _ _ => rfl) rfl ?_
+    · simp only [hev]
+      exact callLooked_sim hC fnArrayLength _ _ (tk_rel hp1.2.1).symm
+    · intro m x s3 h
+      rw [hev] at h
+      exact keepCallLooked ag htb hhost htab m _ _ _ (tk s1) x s3 h
+    · intro nlen s3 s3' hs3 hk3
+      simp only [assignO, forLenK]
+      have hval3 : sget l1 s3.globals (.gen .values i) = some a :=
+        (sget_keep (KeepL.refl (i+1) l1) (GKeep.of_all l1 (i+1) hk3) .values i (Nat.lt_succ_self i)).trans hself1
+      have hp2 := assign_gen hp1.1 hs3 .length i nlen i (Nat.le_refl i)
+      have hself2 := sget_assign_self l1 s3 (.gen .length i) nlen
+      have hne2 := fun y hy => sget_assign_ne l1 s3 (.gen .length i) y nlen hy
+      have hw2 := assign_world l1 s3 (.gen .length i) nlen
+      generalize hA2 : assign l1 s3 (.gen .length i) nlen = A2 at hp2 hself2 hne2 hw2
+      obtain ⟨l2, s2x⟩ := A2
+      simp only [hA2] at hp2 hself2 hne2 hw2 ⊢
+      obtain ⟨k2l, k2g⟩ := kstep k1l (kall k1g hk3) hp2.2.2.1 hp2.2.2.2
+      have hval2 : sget l2 s2x.globals (.gen .values i) = some a := (hne2 _ (by simp)).trans hval3
+      simp only [stmtCond_notE cfg htb]
+      refine csim_stmtCond_pure cfg hmax (callValue₀ cfg) nlen ?_ ?_
+      · intro m
+        rw [evalExpr_variable, tk_globals, readVar_of_sget hself2]
+      · have hw : s2x.world = s3'.world := hp2.2.1.1
+        simp only [tk_world, hw]
+        cases cfg.host.truthy nlen s3'.world with
+        | false =>
+          simp only [Bool.not_false, if_true, Bool.false_eq_true, if_false]
+          exact csim_norm ⟨hp2.1, tk_rel hp2.2.1, k2l, k2g⟩
+        | true =>
+          simp only [Bool.not_true, Bool.false_eq_true, if_false, if_true]
+          refine csim_stmtExpr_pure cfg hmax (callValue₀ cfg) (.num 0) (fun _ => by simp only [evalExpr]) ?_
+          simp only [assignO]
+          cases ix with
+          | none =>
+            simp only [Option.getD_none, vIndex]
+            have hp4 := assign_gen hp2.1 (tk_rel (tk_rel hp2.2.1)) .index i (.num 0) i (Nat.le_refl i)
+            have hself4 := sget_assign_self l2 (tk (tk s2x)) (.gen .index i) (.num 0)
+            have hne4 := fun y hy => sget_assign_ne l2 (tk (tk s2x)) (.gen .index i) y (.num 0) hy
+            generalize hA4 : assign l2 (tk (tk s2x)) (.gen .index i) (.num 0) = A4 at hp4 hself4 hne4
+            obtain ⟨l4, s4⟩ := A4
+            simp only [hA4, tk_globals] at hp4 hself4 hne4 ⊢
+            obtain ⟨k4l, k4g⟩ := kstep k2l k2g hp4.2.2.1 hp4.2.2.2
+            refine csim_skip cfg hmax ?_
+            refine hF lk i v none b a nlen (.num 0) hv hix hokb l4 (tk s4) l' s3' l st.globals hp4.1 (tk_rel hp4.2.1) ?_ k4l k4g
+            simp only [ForInv, vValues, vLength, vIndex, tk_globals]
+            exact ⟨(hne4 _ (by simp)).trans hval2, (hne4 _ (by simp)).trans hself2, fun _ => hself4⟩
+          | some xn =>
+            simp only [Option.getD_some]
+            simp only [ngO, Bool.not_eq_true'] at hix
+            have hgen : ∀ K k, Name.gen K k ≠ xn := by intro K k h; subst h; simp [isGen] at hix
+            have hp4 := assign_user hp2.1 (tk_rel (tk_rel hp2.2.1)) xn (.num 0) hix i
+            have hne4 := fun y hy => sget_assign_ne l2 (tk (tk s2x)) xn y (.num 0) hy
+            generalize hA4 : assign l2 (tk (tk s2x)) xn (.num 0) = A4 at hp4 hne4
+            obtain ⟨l4, s4⟩ := A4
+            generalize hA4' : assign l' s3' xn (.num 0) = A4' at hp4
+            obtain ⟨l4', s4'⟩ := A4'
+            simp only [hA4, tk_globals] at hp4 hne4 ⊢
+            obtain ⟨k4l, k4g⟩ := kstep k2l k2g hp4.2.2.1 hp4.2.2.2
+            refine csim_skip cfg hmax ?_
+            refine hF lk i v (some xn) b a nlen (.num 0) hv (by simp [ngO, hix]) hokb l4 (tk s4) l4' s4' l st.globals hp4.1
+              (tk_rel hp4.2.1) ?_ k4l k4g
+            simp only [ForInv, vValues, vLength, vIndex, tk_globals]
+            exact ⟨(hne4 _ (hgen _ _)).trans hval2, (hne4 _ (hgen _ _)).trans hself2, fun h => by cases h⟩
+
+end Converse
+
 end C01
